@@ -1243,7 +1243,15 @@ impl ParserState {
                 }
             } else {
                 if bidx == 0 && self.bytes[applied_idx] == TokTrie::SPECIAL_TOKEN_MARKER {
-                    if let Some(tid) = self.tok_env.tok_trie().token_id_at_bytes(tok_bytes) {
+                    // several token ids may share the same bytes: when the committed id
+                    // itself spells these bytes it is the one to compare
+                    let trie = self.tok_env.tok_trie();
+                    let tid = if trie.token(tok_id) == tok_bytes {
+                        Some(tok_id)
+                    } else {
+                        trie.token_id_at_bytes(tok_bytes)
+                    };
+                    if let Some(tid) = tid {
                         if let Some((len, tid2)) =
                             parse_numeric_token(&self.bytes[applied_idx + 1..])
                         {
